@@ -216,6 +216,42 @@ pub fn run(args: &Args) {
             e["ep_start"] = json!(true);
             t.emit(e);
         }
+        // signature entries that hold no (valid) signature at all, the content untouched and every digest true: the
+        // real verifier cannot have accepted anything, so verification must fail
+        if !big {
+            use base64::Engine;
+            let sha = lay.sig.string(&base, 273).unwrap_or_default();
+            let good_txt = lay.sig.strings(&base, 278).and_then(|v| v.first().cloned()).unwrap_or_default();
+            let good_bin = lay.sig.bin(&base, 268).or_else(|| lay.sig.bin(&base, 267)).unwrap_or_default();
+            let legacy_tag = if lay.sig.find(268).is_some() { 268 } else { 267 };
+            let uid_packet: Vec<u8> = { let mut v = vec![0xB4u8, 5]; v.extend_from_slice(b"a <b>"); v };   // a user-id packet
+            let b64 = |x: &[u8]| base64::engine::general_purpose::STANDARD.encode(x).into_bytes();
+            let mut garbled = good_txt.clone();
+            if !garbled.is_empty() { garbled[0] = b'!'; }
+            let mut cut = good_bin.clone();
+            cut.truncate(good_bin.len() / 2);
+            let variants: Vec<(&str, Vec<(u32, u32, Value)>)> = vec![
+                ("OPENPGP text starting with a non-base64 character", vec![(278, T_STRARR, json!([garbled]))]),
+                ("OPENPGP empty string", vec![(278, T_STRARR, json!([Vec::<u8>::new()]))]),
+                ("OPENPGP holds a user-id packet", vec![(278, T_STRARR, json!([b64(&uid_packet)]))]),
+                ("OPENPGP holds half a signature packet", vec![(278, T_STRARR, json!([b64(&cut)]))]),
+                ("OPENPGP holds random bytes", vec![(278, T_STRARR, json!([b64(&[0x13u8, 0x37, 0xC0, 0xFF, 0xEE, 0x00, 0x01, 0x02])]))]),
+                ("legacy tag empty", vec![(legacy_tag, T_BIN, json!(Vec::<u8>::new()))]),
+                ("legacy tag holds text", vec![(legacy_tag, T_BIN, json!(b"not a signature".to_vec()))]),
+                ("legacy tag holds a user-id packet", vec![(legacy_tag, T_BIN, json!(uid_packet.clone()))]),
+                ("legacy tag holds half a signature packet", vec![(legacy_tag, T_BIN, json!(cut.clone()))]),
+                ("PGP (header+payload) tag holds the header-only signature", vec![(1002, T_BIN, json!(good_bin.clone()))]),
+            ];
+            for (what, mut ents) in variants {
+                ents.push((273, T_STRING, json!([sha.as_bytes()])));
+                let sig = encode_wellformed(62, &ents);
+                let m = rawhdr::assemble(&base[..96], &sig, &base[lay.hdr_at..lay.payload_at], &base[lay.payload_at..], 0);
+                let mut e = verify_real(&m, &orig, key);
+                e["event"] = json!("NoSignature"); e["key"] = json!(key); e["what"] = json!(what);
+                e["ep_start"] = json!(true);
+                t.emit(e);
+            }
+        }
         // digest-consistent forgeries: change content, then repair every recorded digest
         let nforge = args.num("forgeries", 40);
         for k in 0..nforge {
